@@ -96,4 +96,17 @@ def check_case(case, cell):
 
 
 def match_known(f, case, known):
+    """C02-K1: mpr_intersection on two flat shapes lying in the same plane.
+    Their Minkowski difference is flat, the portal normal is perpendicular to
+    it and 'portal encapsulates the origin' holds for every in-plane position
+    of the origin: separated coplanar pairs are reported as colliding."""
+    ids = {k["id"] for k in known}
+    if "C02-K1" in ids and f["bucket"].startswith("false-collision/mpr/"):
+        tr = S.truth(case)
+        A, B = tr["A"], tr["B"]
+        if A.flat and B.flat and A.kind in ("disk", "ellipse") and B.kind in ("disk", "ellipse"):
+            n = A.R[:, 2]
+            if abs(float(n.dot(B.R[:, 2]))) >= 1.0 - 1e-9 and \
+                    abs(float(n.dot(B.center() - A.center()))) <= 1e-9 * tr["L"]:
+                return "C02-K1"
     return None
